@@ -50,9 +50,10 @@ ALL = 'Layouts = {1,2,3}  Caps = {0,1,2}  PoolSets = {1,2,3,4,5}  Modes = {"stri
 
 SCOPE = {
     # mc: exhaustive closed-model scope; gen: scenario enumeration; replay: TLC scenarios replayed (None = all); explore: explorer scenarios
-    "quick": dict(mc='NPods = 3  PodArchs = {1,3,4,6,9}  Layouts = {1,2}  Caps = {0,1,2}  PoolSets = {1,2,5}  Modes = {"strict", "fallback"}',
-                  gen="NPods = 3  PodArchs = {1,2,3,4,5,6,7,8,9,10}  " + ALL, replay=1200, explore=1500,
-                  dmc="NClaims = 2  " + DALL, dgen="NClaims = 3  " + DALL, dreplay=None, dexplore=1500),   # every world x 5 pod-size variants x 2 claim orders
+    # (measured on the quiet 16-core machine: quick closed models 135k + 284k states in ~1 min, the whole quick tier ~2 min)
+    "quick": dict(mc='NPods = 3  PodArchs = {1,3,4,6,9}  Layouts = {1,2}  Caps = {0,1,2}  PoolSets = {2,5}  Modes = {"strict", "fallback"}',
+                  gen="NPods = 3  PodArchs = {1,2,3,4,5,6,7,8,9,10}  " + ALL, replay=1200, explore=1200,
+                  dmc="NClaims = 2  " + DALL, dgen="NClaims = 3  " + DALL.replace("Slots = {0, 1, 2}", "Slots = {0, 1}"), dreplay=None, dexplore=1200),   # every world x 5 pod-size variants (x both claim orders for 2 of them; thorough: for all)
     # (pool set 4 = a single pool is a sub-case of the others: left out of the exhaustive run, kept in the enumeration that is replayed;
     #  archetype 8 = two OR-terms relaxes into archetypes 3/4; measured: the full 59 400-scenario scope has ~3.0M states)
     "thorough": dict(mc='NPods = 3  PodArchs = {1,2,3,4,5,6,7,9,10}  Layouts = {1,2,3}  Caps = {0,1,2}  PoolSets = {1,2,3,5}  Modes = {"strict", "fallback"}',
@@ -106,7 +107,7 @@ def model_dra(run, tier, dev):
     """DRA closed model, coverage, spec mutations"""
     if os.environ.get("VERIF_SKIP_MODEL"):
         return
-    w, heap = (4 if dev else max(2, vlib.NCPU // 2)), ("4g" if dev else "8g")
+    w, heap = (4 if dev else max(2, vlib.NCPU // 4)), ("4g" if dev else "8g")
     write_cfg(run, "DRA_MC_run.cfg", tier["dmc"], "Spec", DINVS, DFLAGS)
     run.closed_model("DRA", "DRA_MC_run.cfg", workers=w, heap=heap, timeout=3000)
     write_cfg(run, "DRA_Cov_run.cfg", 'NCs = {"N1", "N2"}  NClaims = 2  Kinds = {"net", "shm2", "gpu"}  Pres = {0}  Slots = {1}', "Spec", DINVS, DFLAGS)
@@ -157,18 +158,16 @@ def check(run):
                 "x pod batch x strict|fallback x workers; non-trivial when some NodeClaim held a reservation at a commitment or a pod was "
                 "deferred with a reserved-offering error.  DRA half: ResourceSlices / templates / claims x pod batch; non-trivial when the "
                 "allocator allocated at least one claim in the pass (only then a C17 guard has a non-trivial antecedent)")
-    # 1. closed models of both halves (independent TLC jobs)
-    with cf.ThreadPoolExecutor(max_workers=3) as ex:
-        jobs = [ex.submit(run.build_drv), ex.submit(model, run, tier, dev), ex.submit(model_dra, run, tier, dev)]
-        for j in jobs:
-            j.result()
-    # 2. TLC-enumerated scenarios
-    #    reservations: both modes are part of the scenario space; workers 1/2/8 by rotation
+    # 1./2. closed models of both halves, harness build and TLC scenario enumeration: independent jobs, run concurrently
+    #    (reservations: both modes are part of the scenario space; workers 1/2/8 by rotation)
     write_cfg(run, "Reservations_Gen_run.cfg", tier["gen"], "GenSpec", ["GenPrint"])
     write_cfg(run, "DRA_Gen_run.cfg", tier["dgen"], "GenSpec", ["GenPrint"], DFLAGS)
-    with cf.ThreadPoolExecutor(max_workers=2) as ex:
+    with cf.ThreadPoolExecutor(max_workers=5) as ex:
+        jobs = [ex.submit(run.build_drv), ex.submit(model, run, tier, dev), ex.submit(model_dra, run, tier, dev)]
         j1 = ex.submit(run.generate, "Reservations", "Reservations_Gen_run.cfg", workers=2, timeout=2400, heap="4g")
         j2 = ex.submit(run.generate, "DRA", "DRA_Gen_run.cfg", workers=2, timeout=2400, heap="4g")
+        for j in jobs:
+            j.result()
         enum, worlds = [fix_maps(s) for s in j1.result()], j2.result()
     if tier.get("gen4"):
         write_cfg(run, "Reservations_Gen4_run.cfg", tier["gen4"], "GenSpec", ["GenPrint"])
@@ -183,8 +182,9 @@ def check(run):
     scenarios = [rc.with_workers(s, (1, 2, 8)[i % 3]) for i, s in enumerate(enum)]
     scenarios += [rc.explore_resv(rng, "x-resv-%d-%d" % (run.seed, i)) for i in range(tier["explore"])]
     #    DRA: every world x 5 pod-size variants x 2 claim-to-pod orders
+    revs = {v: (False, True) if (run.tier == "thorough" or v in (0, 2)) else (False,) for v in dc.SIZES}
     dscn = [dc.from_world(w, v, "tlc-dra-%d/v%d%s" % (i, v, "r" if rev else ""), rev) for i, w in enumerate(worlds) for v in sorted(dc.SIZES)
-            for rev in (False, True)]
+            for rev in revs[v]]
     total_dscn = len(dscn)
     if tier["dreplay"] and tier["dreplay"] < len(dscn):
         dscn, run.exhaustive = rng.sample(dscn, tier["dreplay"]), False
